@@ -277,7 +277,8 @@ void DOMElementImpl::setIdAttributeNode(const DOMAttr *idAttr, bool isId) {
     else
         attr = getAttributeNode(idAttr->getName());
 
-    if(!attr)
+    // it must be THAT node, not another attribute of the same name
+    if(!attr || attr != idAttr)
         throw DOMException(DOMException::NOT_FOUND_ERR, 0, GetDOMNodeMemoryManager);
 
     if(isId)
